@@ -50,19 +50,13 @@ Proof. vm_compute. split; reflexivity. Qed.
 (* ---------------------------------------------------------------- *)
 (* C12, expired lease (reading of the property text: expired = DHCPExpiry before the handler's clock):
    a client acquires 192.168.0.2, the lease's expiry is put 30 s into the past (not yet freed by
-   MinuteTicker), its INIT-REBOOT request for the address is ACKed *)
+   MinuteTicker), its INIT-REBOOT request for the address is NAKed (it was ACKed before fix 8b460ec) *)
 Definition ipB : ip := 3232235522.   (* 192.168.0.2: first pool address *)
 Definition wexp : list op :=
   [ODiscover 0 (dmsg0 c1 1 None None); ORequest 0 (dmsg0 c1 1 (Some ipB) us);
    OSetExp (281474976710656 + c1) (-30); ORequest 0 (dmsg0 c1 1 (Some ipB) None)].
-Lemma no_ack_when_refuted : exists c h t m r,
-  In t (trace c (init c) h) /\ op_msg (t_op t) = Some m /\ t_reply t = Some r /\
-  r_type r = RAck /\ cannot_honour c (t_pre t) m (op_now (t_op t)) = true.
-Proof.
-  exists wcfg, (with_ch0 wexp).
-  destruct (rev (trace wcfg (init wcfg) (with_ch0 wexp))) as [|t rest] eqn:E; [vm_compute in E; discriminate|].
-  exists t, (dmsg0 c1 1 (Some ipB) None).
-  assert (Hin : In t (trace wcfg (init wcfg) (with_ch0 wexp))) by (apply in_rev; rewrite E; left; reflexivity).
-  vm_compute in E. inversion E; subst t. clear E.
-  eexists. split; [exact Hin|]. repeat split.
-Qed.
+Lemma expired_example :
+  map (fun t => (lease_expired (t_pre t) (dmsg0 c1 1 (Some ipB) None) (op_now (t_op t)), option_map r_type (t_reply t)))
+      (trace wcfg (init wcfg) (with_ch0 wexp))
+  = [(false, Some ROffer); (false, Some RAck); (false, None); (true, Some RNak)].
+Proof. vm_compute. reflexivity. Qed.
